@@ -70,6 +70,7 @@ def findings(repo, prog):
         _g10(f, out)
         _g11(f, out)
         _g5b(f, out)
+        _g4c(f, out)
     _g1(repo, prog, out)
     _g2(repo, prog, out)
     _g3(repo, prog, out)
@@ -705,6 +706,123 @@ def _g7(f, out):
                            '(e.g. a macro taken as a single-token argument has no arguments)'
                            % (base, k, [('' if p else 'not ') + short(t, 40) for t, p in facts][-3:]),
                            '%s: %s' % (f.qual, unparse(x))))
+
+
+# --------------------------------------------------------------------------- G12
+
+
+def ambiguous_nested_repeats(pattern):
+    """[description] for every unbounded repeat whose body is an unbounded repeat followed/preceded
+    only by parts that can match the empty string: the same text can be split between the inner
+    and the outer repetition in exponentially many ways (catastrophic backtracking on a
+    non-matching input).  Uses the standard library's regex parser; nothing is matched."""
+    import re._parser as sp
+    try:
+        parsed = sp.parse(pattern)
+    except Exception:
+        return []
+    MAXREP = sp.MAXREPEAT
+    out = []
+
+    def can_be_empty(item):
+        op, av = item
+        opn = str(op)
+        if opn in ('MAX_REPEAT', 'MIN_REPEAT'):
+            return av[0] == 0 or all(can_be_empty(x) for x in av[2])
+        if opn == 'SUBPATTERN':
+            return all(can_be_empty(x) for x in av[3])
+        if opn == 'BRANCH':
+            return any(all(can_be_empty(x) for x in br) for br in av[1])
+        if opn in ('ASSERT', 'ASSERT_NOT', 'AT'):
+            return True
+        return False
+
+    def flat(items):
+        res = []
+        for it in items:
+            if str(it[0]) == 'SUBPATTERN':
+                res.extend(flat(list(it[1][3])))
+            else:
+                res.append(it)
+        return res
+
+    def walk(items):
+        for op, av in items:
+            opn = str(op)
+            if opn in ('MAX_REPEAT', 'MIN_REPEAT'):
+                lo, hi, sub = av
+                body = flat(list(sub))
+                if hi == MAXREP:
+                    inner = [x for x in body if str(x[0]) in ('MAX_REPEAT', 'MIN_REPEAT') and x[1][1] == MAXREP
+                             and not can_be_empty(x)]
+                    others = [x for x in body if not any(x is y for y in inner)]
+                    if inner and all(can_be_empty(x) for x in others):
+                        out.append('an unbounded repetition whose body is itself an unbounded repetition '
+                                   'plus optional parts only')
+                walk(list(sub))
+            elif opn == 'SUBPATTERN':
+                walk(list(av[3]))
+            elif opn == 'BRANCH':
+                for br in av[1]:
+                    walk(list(br))
+            elif opn in ('ASSERT', 'ASSERT_NOT'):
+                walk(list(av[1]))
+    walk(list(parsed))
+    return out
+
+
+def regex_findings(repo):
+    """(module, call node, pattern, description) for every ambiguous regex literal of the package"""
+    res = []
+    for mod in repo.modules.values():
+        if 'uni2latexmap' in mod.name:
+            continue
+        for c in ast.walk(mod.tree):
+            if isinstance(c, ast.Call) and call_name(c) in ('compile', 'match', 'search', 'sub', 'fullmatch',
+                                                             'split', 'findall', 'finditer') and c.args and \
+                    isinstance(c.args[0], ast.Constant) and isinstance(c.args[0].value, str) and \
+                    call_recv(c) is not None and unparse(call_recv(c)) == 're':
+                for d in ambiguous_nested_repeats(c.args[0].value):
+                    res.append((mod, c, c.args[0].value, d))
+    return res
+
+
+# --------------------------------------------------------------------------- G4c
+
+
+def _g4c(f, out):
+    """contradiction rule: the function compares a name with None somewhere (so it believes the
+    value may be None) and takes len() of the same name where no non-None fact dominates and the
+    name was not re-bound under the None test"""
+    if not isinstance(f.node, (ast.FunctionDef, ast.AsyncFunctionDef)):
+        return
+    tested = {}
+    for c in walk_fn(f.node):
+        if isinstance(c, ast.Compare) and len(c.ops) == 1 and isinstance(c.ops[0], (ast.Is, ast.IsNot)) and \
+                isinstance(c.comparators[0], ast.Constant) and c.comparators[0].value is None and \
+                isinstance(c.left, ast.Name):
+            tested.setdefault(c.left.id, []).append(c)
+    if not tested:
+        return
+    for u in walk_fn(f.node):
+        if not (isinstance(u, ast.Call) and isinstance(u.func, ast.Name) and u.func.id == 'len' and u.args
+                and isinstance(u.args[0], ast.Name) and u.args[0].id in tested):
+            continue
+        name = u.args[0].id
+        facts = [(unparse(t), p) for t, p in atomic_facts(u)] + \
+                [(unparse(t), p) for t, p in short_circuit_facts(u)]
+        if any((t == name + ' is not None' and p) or (t == name + ' is None' and not p) or (t == name and p)
+               or (t == 'not ' + name and not p) for t, p in facts):
+            continue
+        assigns = [a for a in walk_fn(f.node) if isinstance(a, (ast.Assign, ast.AugAssign)) and any(
+            isinstance(t, ast.Name) and t.id == name for t in (a.targets if isinstance(a, ast.Assign) else [a.target]))]
+        if any(a.lineno < u.lineno and any(unparse(t2) == name + ' is None' and p2 for t2, p2 in atomic_facts(a))
+               for a in assigns):
+            continue
+        out.append(Finding('G4', 'REFUTED', f.mod, enclosing_stmt(u) or u, f.key,
+                           '%s is compared with None in this function (line %d), so it may be None, but '
+                           'len(%s) is evaluated where no non-None fact dominates: TypeError'
+                           % (name, tested[name][0].lineno, name), '%s: len(%s)' % (f.qual, name)))
 
 
 # --------------------------------------------------------------------------- G5b
